@@ -33,7 +33,7 @@ theorem keeps_addMeasurement (id : Nat) (m : Meas) : KeepsKey fun st => addMeasu
 theorem keeps_stop (id : Nat) : KeepsKey fun st => stopBody st id := by
   intro st; simp only [stopBody]; repeat' split
   all_goals simp
-theorem keeps_createTrial (t : Trial) : KeepsKey fun st => createTrialBody st t := by
+theorem keeps_createTrial (keepInf : Bool) (t : Trial) : KeepsKey fun st => createTrialBody keepInf st t := by
   intro st; simp [createTrialBody]
 theorem keeps_deleteTrial (id : Nat) : KeepsKey fun st => deleteTrialBody st id := by
   intro st; simp only [deleteTrialBody]; split <;> rfl
